@@ -22,6 +22,7 @@ CHECKS = {
     'C12': ('symtex', 'every math kind x body template with symbolic math text (brackets/parentheses allowed), symbolic sizing delimiters, adjacent regions, escaped dollars, in 7 contexts: one math node of the right kind with the exact body', 'DESIGN.md §7 C12'),
     'C13': ('symtex', 'recorded positions of all nodes/tokens equal the offsets obtained by mirroring the serialisers (skeleton cover); char_pos_to_line on all strings over {letter, LF} up to the bound; search_regex offsets for a modelled regex family', 'DESIGN.md §7 C13'),
     'C14': ('symtex', 'rename to a symbolic name, string assignment with symbolic text and argument-list reordering on every target of skeleton documents: splice oracle by node identity, search deltas, and shape after re-parsing', 'DESIGN.md §7 C14'),
+    'C15': ('symtex', 'all edit histories up to the depth bound on twin-hole documents against a reference document model with identity-based edits: serialised text, descendants, parent chains, search counts and the text view after every step, inserted material included', 'DESIGN.md §6.6, §7 C15'),
     'C16': ('symtex', 're-parse of the serialised text gives identical text and shape, for every parseable string up to the length bound', 'DESIGN.md §7 C16'),
     'C17': ('symtex', 'input forms (str / chunk lists / tuples / generator / file object) give identical outcomes on free strings and skeleton documents; the same input spaces are explored in fresh interpreters under several PYTHONHASHSEED values and z3 decides that the outcome partitions are equivalent; interleaved parses and edits of two documents do not influence each other', 'DESIGN.md §6.5, §7 C17',
             'solver-based symbolic execution (symtex) + z3 partition-equivalence queries between explorations run under different hash seeds'),
